@@ -806,3 +806,120 @@ var idxReviewed = map[string]string{
 	"addFreeFloatingToken/lex.data[ps:pe] !low >= 0,low <= high,high <= len": "every call passes (ts, te) or (ts, ts+5) with ts+5 = te (rule ff-span), and 0 <= ts <= te <= len",
 	"Lex/lex.stack[lex.top] !index >= 0":                               "inlined fret of the string_var machines, which are entered only through fcall (a push), so top >= 1 before the decrement",
 }
+
+// NewlineSymmetry: in the scanner's hand-written code a byte that is compared
+// with one line terminator is compared with the other one in the same way in
+// the same function, unless the comparison is the CR LF pair idiom (x is CR and
+// its neighbour is / is not LF). A helper that tests only '\n' (or only '\r')
+// treats the two line endings differently.
+func (a *Analysis) NewlineSymmetry() *report.RuleResult {
+	res := report.NewResult("newline-symmetry")
+	m := a.M
+	info := m.info()
+	for _, fd := range load.FuncDecls(m.Pkg) {
+		fname := fd.Name.Name
+		type cmp struct {
+			expr string
+			eq   bool
+			c    byte
+			pos  token.Pos
+		}
+		var cmps []cmp
+		ast.Inspect(fd.Body, func(n ast.Node) bool {
+			be, ok := n.(*ast.BinaryExpr)
+			if !ok || (be.Op != token.EQL && be.Op != token.NEQ) {
+				return true
+			}
+			side := func(x, y ast.Expr) {
+				tv := info.Types[y]
+				if tv.Value == nil {
+					return
+				}
+				v, ok := constant.Int64Val(constant.ToInt(tv.Value))
+				if !ok || (v != 10 && v != 13) {
+					return
+				}
+				if _, isIdx := unparen(x).(*ast.IndexExpr); !isIdx {
+					return
+				}
+				e := strings.ReplaceAll(types.ExprString(unparen(x)), "(lex.p)", "lex.p")
+				cmps = append(cmps, cmp{e, be.Op == token.EQL, byte(v), be.Pos()})
+			}
+			side(be.X, be.Y)
+			side(be.Y, be.X)
+			return true
+		})
+		if len(cmps) == 0 {
+			continue
+		}
+		res.Count("functions", 1)
+		type key struct {
+			expr string
+			c    byte
+		}
+		have := map[key]bool{}
+		for _, c := range cmps {
+			have[key{c.expr, c.c}] = true
+		}
+		neighbour := func(e string, d int) []string {
+			// data[X] -> data[X+1] / data[X-1], textually for the index forms the scanner uses
+			i := strings.LastIndex(e, "]")
+			if i < 0 {
+				return nil
+			}
+			open := strings.Index(e, "[")
+			idx := e[open+1 : i]
+			var out []string
+			if d > 0 {
+				out = append(out, e[:open+1]+idx+" + 1"+e[i:], e[:open+1]+idx+"+1"+e[i:])
+				if strings.HasSuffix(idx, " - 1") {
+					out = append(out, e[:open+1]+strings.TrimSuffix(idx, " - 1")+e[i:])
+				}
+			} else {
+				out = append(out, e[:open+1]+idx+" - 1"+e[i:], e[:open+1]+idx+"-1"+e[i:])
+				if strings.HasSuffix(idx, " + 1") {
+					out = append(out, e[:open+1]+strings.TrimSuffix(idx, " + 1")+e[i:])
+				}
+			}
+			return out
+		}
+		bad := map[string]token.Pos{}
+		for _, c := range cmps {
+			other := byte(23 - c.c) // 10 <-> 13
+			if have[key{c.expr, other}] {
+				continue
+			}
+			// CR LF pair idiom: this byte is tested for LF and its left neighbour for CR, or for CR and its right neighbour for LF
+			pair := false
+			if c.c == 10 {
+				for _, nb := range neighbour(c.expr, -1) {
+					if have[key{nb, 13}] {
+						pair = true
+					}
+				}
+			} else {
+				for _, nb := range neighbour(c.expr, +1) {
+					if have[key{nb, 10}] {
+						pair = true
+					}
+				}
+			}
+			if !pair {
+				bad[c.expr] = c.pos
+			}
+		}
+		if len(bad) == 0 {
+			res.OK(fname, m.Prog.Pos(fd.Pos()), fname, fmt.Sprintf("%d comparisons with line terminators: LF and CR are treated alike (or as a CR LF pair)", len(cmps)))
+			continue
+		}
+		var ks []string
+		for e := range bad {
+			ks = append(ks, e)
+		}
+		sort.Strings(ks)
+		for _, e := range ks {
+			res.Bad(fname+"/"+e, m.Prog.Pos(bad[e]), fname, e+" is compared with one line terminator but not with the other: LF and CR endings take different paths here")
+		}
+	}
+	return res
+}
